@@ -21,6 +21,7 @@ import (
 	"encoding/hex"
 	"encoding/json"
 	"errors"
+	"flag"
 	"fmt"
 	"os"
 	"path/filepath"
@@ -529,6 +530,20 @@ func (r *run) sealed(blob []byte, kind string) c04Field {
 		}
 		if pt, err := k.Decrypt(blob); err == nil {
 			f = c04Field{"S", lab, len(pt)}
+			if lab == "zero" {
+				// A value sealed under the all-zero key is readable by
+				// anyone holding the file: the sealing is a fixed public
+				// encoding of the plaintext.  Secret scripts are sealed
+				// that way on the pinned tree (DESIGN section 6, S5: a
+				// recorded observation, not raised); any OTHER secret in
+				// such a field is a secret in the file.
+				for _, n := range r.sc.needles {
+					if n.class == "secret" && !strings.HasPrefix(n.site, "secret_script") && bytes.Equal(n.b, pt) {
+						r.viol("secret_in_file", n.site+"+all_zero_key")
+						break
+					}
+				}
+			}
 			if lab == "cpriv" || lab == "mpriv" || (lab == "zero" && kind == "secret_script") || lab == "cscript" {
 				r.privBlobs[string(blob)] = kind
 			}
@@ -1836,7 +1851,14 @@ func c04Systematic(seed []byte, taprootSecret bool) c04Input {
 }
 
 func main() {
-	core.Main("c04", nil, func(c *core.Common, out *core.Emitter) error {
+	probe := false
+	core.Main("c04", func(fs *flag.FlagSet) {
+		fs.BoolVar(&probe, "probe", false, "determine the regenerated facts by running the witness scenarios; print JSON")
+	}, func(c *core.Common, out *core.Emitter) error {
+		if probe {
+			probeMain()
+			return nil
+		}
 		runOne := func(in c04Input, tags ...string) error {
 			var cs c04Case
 			var err error
